@@ -269,6 +269,32 @@ def run_case(spec, ctx):
                                'relative_error': err / scale if scale else None,
                                'max_exponent': float(np.max(np.abs(ap_exp)))})
             prev = err
+    # ---- a custom, tight but sufficient range of exponents (cuts): still accurate
+    if not detail and in_range and len(ex_exp):
+        U = float(np.ceil(10 * (np.max(np.abs(ex_exp)) + 0.15)) / 10)
+        U = max(U, 0.6)
+        for cuts in ((-30, U), (-(U + 2), U + 0.5)):
+            try:
+                with warnings.catch_warnings():
+                    warnings.simplefilter('ignore')
+                    m.soc_solve(C.solver('eco'), degree=4, cuts=cuts, display=False)
+            except Exception as e:
+                ctx.count('soc_solve_cuts_raises:' + type(e).__name__)
+                break
+            if not C.optimal(m) or 'Optimal' not in str(m.solution.status):
+                continue
+            valc = float(m.get())
+            sxc = np.asarray(m.solution.x, float)[:n0]
+            apc = exponents(f, sxc)
+            if not np.all(np.abs(apc) <= U - 0.05):
+                continue                     # the approximate optimum left the declared range
+            ctx.count('custom_cuts_compared')
+            scale = err_scale(spec, exact)
+            if abs(valc - exact) > 1e-3 * scale + 2e-6 * (1 + abs(exact)):
+                detail.append({'what': 'soc_solve error above 1e-3 with a custom exponent range',
+                               'cuts': list(cuts), 'soc': valc, 'exact': exact,
+                               'max_exponent': float(np.max(np.abs(apc)))})
+                break
     # ---- the exact solve still works afterwards and returns the same optimum
     try:
         C.solve(m, 'eco')
